@@ -17,6 +17,7 @@ package main
 import (
 	"fmt"
 	"go/ast"
+	"go/constant"
 	"go/printer"
 	"go/token"
 	"strconv"
@@ -286,7 +287,10 @@ func main() {
 
 		// 1. hop-by-hop headers
 		const rp = "pkg/util/reverseproxy/reverseproxy.go"
+		// found by ROLE, not by name or representation: the package-level collection of string literals (slice elements or
+		// map keys) that contains "Connection" and "Transfer-Encoding". The theorems need the SET of names (c04_hop_list).
 		var hop []string
+		hopVar := ""
 		for _, d := range g.ParseFile(rp).Decls {
 			gd, ok := d.(*ast.GenDecl)
 			if !ok || gd.Tok != token.VAR {
@@ -294,26 +298,47 @@ func main() {
 			}
 			for _, sp := range gd.Specs {
 				vs := sp.(*ast.ValueSpec)
-				if len(vs.Names) == 1 && vs.Names[0].Name == "hopHeaders" && len(vs.Values) == 1 {
-					cl, ok := vs.Values[0].(*ast.CompositeLit)
-					if !ok {
-						lib.Fatalf("hopHeaders is not a composite literal")
+				if len(vs.Names) != 1 || len(vs.Values) != 1 {
+					continue
+				}
+				cl, ok := vs.Values[0].(*ast.CompositeLit)
+				if !ok {
+					continue
+				}
+				var names []string
+				all := len(cl.Elts) > 0
+				for _, e := range cl.Elts {
+					if kv, ok := e.(*ast.KeyValueExpr); ok {
+						e = kv.Key
 					}
-					for _, e := range cl.Elts {
-						bl, ok := e.(*ast.BasicLit)
-						if !ok || bl.Kind != token.STRING {
-							lib.Fatalf("hopHeaders has a non-literal element")
+					bl, ok := e.(*ast.BasicLit)
+					if !ok || bl.Kind != token.STRING {
+						all = false
+						break
+					}
+					str, _ := strconv.Unquote(bl.Value)
+					names = append(names, str)
+				}
+				has := func(x string) bool {
+					for _, n := range names {
+						if n == x {
+							return true
 						}
-						s, _ := strconv.Unquote(bl.Value)
-						hop = append(hop, s)
 					}
+					return false
+				}
+				if all && has("Connection") && has("Transfer-Encoding") {
+					if hopVar != "" {
+						lib.Fatalf("two candidate hop-by-hop collections in %s: %s and %s", rp, hopVar, vs.Names[0].Name)
+					}
+					hopVar, hop = vs.Names[0].Name, names
 				}
 			}
 		}
 		if len(hop) == 0 {
-			lib.Fatalf("hopHeaders not found in %s", rp)
+			lib.Fatalf("no package-level collection of hop-by-hop header names (string literals incl. Connection, Transfer-Encoding) in %s", rp)
 		}
-		fmt.Fprintf(&b, "/-- `hopHeaders` of %s -/\ndef hopHeaderNames : List String := %s\n", rp, lib.LeanStrList(hop))
+		fmt.Fprintf(&b, "/-- the hop-by-hop header names of %s (the package-level collection that holds them, slice or set) -/\ndef hopHeaderNames : List String := %s\n", rp, lib.LeanStrList(hop))
 		fmt.Fprintf(&b, "/-- the same as byte strings -/\ndef hopHeaders : List (List UInt8) := %s\n", bytesListLit(hop))
 
 		// 2. Retry-After constants
@@ -473,34 +498,111 @@ func main() {
 		})
 		fmt.Fprintf(&b, "/-- arguments of the WithRequestInfo call in buildProxyHandlerChainFunc (handler, resolver, serializer) -/\ndef requestInfoCallArgs : Nat := %d\n", riArgs)
 
-		// 7. the escaped path handed to the proxy (since 85b204e): `location.RawPath = escapeInvalidPathBytes(req.URL.RawPath)`,
-		// and the punctuation escapeInvalidPathBytes leaves alone
-		rawPathExpr := ""
-		ast.Inspect(sd.Body, func(n ast.Node) bool {
-			if as, ok := n.(*ast.AssignStmt); ok && len(as.Lhs) == 1 && len(as.Rhs) == 1 && exprName(as.Lhs[0]) == "location.RawPath" {
-				rawPathExpr = exprName(as.Rhs[0])
-				if c, ok := as.Rhs[0].(*ast.CallExpr); ok && len(c.Args) == 1 {
-					rawPathExpr = exprName(c.Fun) + "(" + exprName(c.Args[0]) + ")"
-				}
+		// 7. the escaped path handed to the proxy (since 85b204e), by ROLE: whatever ends up in the RawPath field of the url.URL
+		// built in dispatcher.ServeHTTP — by assignment or in a composite literal, there or in a same-file helper it calls (two
+		// levels) — is a same-file function applied to the incoming URL's RawPath; the bytes that function leaves alone are
+		// letters, digits and the punctuation of the string its byte test searches (literal or constant), followed likewise.
+		dfile := g.ParseFile(disp)
+		sameFile := map[string]*ast.FuncDecl{}
+		for _, d := range dfile.Decls {
+			if fd, ok := d.(*ast.FuncDecl); ok && fd.Recv == nil && fd.Body != nil {
+				sameFile[fd.Name.Name] = fd
 			}
-			return true
-		})
-		if rawPathExpr == "" {
-			lib.Fatalf("dispatcher.ServeHTTP no longer assigns location.RawPath")
 		}
-		punct := ""
-		if ed := lib.FuncDecl(g.ParseFile(disp), "", "escapeInvalidPathBytes"); ed != nil {
-			ast.Inspect(ed.Body, func(n ast.Node) bool {
-				if c, ok := n.(*ast.CallExpr); ok && exprName(c.Fun) == "strings.IndexByte" && len(c.Args) == 2 {
-					if bl, ok := c.Args[0].(*ast.BasicLit); ok && bl.Kind == token.STRING {
-						punct, _ = strconv.Unquote(bl.Value)
+		var rawPathValue ast.Expr
+		var findRawPath func(n ast.Node, depth int)
+		findRawPath = func(n ast.Node, depth int) {
+			ast.Inspect(n, func(x ast.Node) bool {
+				switch t := x.(type) {
+				case *ast.AssignStmt:
+					for i, l := range t.Lhs {
+						if se, ok := l.(*ast.SelectorExpr); ok && se.Sel.Name == "RawPath" && len(t.Rhs) == len(t.Lhs) {
+							rawPathValue = t.Rhs[i]
+						}
+					}
+				case *ast.CompositeLit:
+					if exprName(t.Type) == "url.URL" {
+						for _, el := range t.Elts {
+							if kv, ok := el.(*ast.KeyValueExpr); ok && exprName(kv.Key) == "RawPath" {
+								rawPathValue = kv.Value
+							}
+						}
+					}
+				case *ast.CallExpr:
+					if id, ok := t.Fun.(*ast.Ident); ok && depth > 0 {
+						if fd := sameFile[id.Name]; fd != nil {
+							findRawPath(fd.Body, depth-1)
+						}
 					}
 				}
 				return true
 			})
 		}
-		fmt.Fprintf(&b, "/-- what dispatcher.ServeHTTP assigns to location.RawPath -/\ndef locationRawPathExpr : String := %q\n", rawPathExpr)
-		fmt.Fprintf(&b, "/-- the punctuation `escapeInvalidPathBytes` leaves alone besides letters and digits (empty: the function is gone) -/\ndef validPathPunct : List UInt8 := %s\n", bytesLit(punct))
+		findRawPath(sd.Body, 2)
+		if rawPathValue == nil {
+			lib.Fatalf("dispatcher.ServeHTTP (and the same-file helpers it calls) no longer sets the RawPath of the upstream URL")
+		}
+		escaped, punct, alnum := false, "", false
+		switch t := rawPathValue.(type) {
+		case *ast.SelectorExpr:
+			if t.Sel.Name != "RawPath" {
+				lib.Fatalf("the upstream URL's RawPath is set from %s", render(g, rawPathValue))
+			}
+		case *ast.CallExpr:
+			id, ok := t.Fun.(*ast.Ident)
+			arg, ok2 := ast.Expr(nil), false
+			if len(t.Args) == 1 {
+				if se, isSel := t.Args[0].(*ast.SelectorExpr); isSel && se.Sel.Name == "RawPath" {
+					arg, ok2 = se, true
+				}
+			}
+			if !ok || !ok2 || sameFile[id.Name] == nil || arg == nil {
+				lib.Fatalf("the upstream URL's RawPath is set from %s: not a same-file function of the incoming RawPath", render(g, rawPathValue))
+			}
+			escaped = true
+			consts := g.Consts(disp)
+			chars := map[string]bool{}
+			var scan func(n ast.Node, depth int)
+			scan = func(n ast.Node, depth int) {
+				ast.Inspect(n, func(x ast.Node) bool {
+					switch c := x.(type) {
+					case *ast.BasicLit:
+						if c.Kind == token.CHAR {
+							chars[c.Value] = true
+						}
+					case *ast.CallExpr:
+						switch exprName(c.Fun) {
+						case "strings.IndexByte", "strings.IndexRune", "strings.ContainsRune", "strings.IndexAny", "strings.ContainsAny":
+							if len(c.Args) == 2 {
+								if bl, ok := c.Args[0].(*ast.BasicLit); ok && bl.Kind == token.STRING {
+									punct, _ = strconv.Unquote(bl.Value)
+								} else if cid, ok := c.Args[0].(*ast.Ident); ok {
+									if v, ok := consts[cid.Name]; ok && v.Kind() == constant.String {
+										punct = constant.StringVal(v)
+									}
+								}
+							}
+						}
+						if cid, ok := c.Fun.(*ast.Ident); ok && depth > 0 {
+							if fd := sameFile[cid.Name]; fd != nil {
+								scan(fd.Body, depth-1)
+							}
+						}
+					}
+					return true
+				})
+			}
+			scan(sameFile[id.Name].Body, 2)
+			alnum = chars["'a'"] && chars["'z'"] && chars["'A'"] && chars["'Z'"] && chars["'0'"] && chars["'9'"]
+			if punct == "" {
+				lib.Fatalf("the function that escapes the upstream RawPath (%s) has no byte test against a string of punctuation any more", id.Name)
+			}
+		default:
+			lib.Fatalf("the upstream URL's RawPath is set from %s", render(g, rawPathValue))
+		}
+		fmt.Fprintf(&b, "/-- the RawPath of the upstream URL built by dispatcher.ServeHTTP is a same-file function of the incoming RawPath\n    (false: the incoming RawPath itself) -/\ndef locationRawPathEscaped : Bool := %v\n", escaped)
+		fmt.Fprintf(&b, "/-- the bytes that function leaves alone: letters and digits (its byte test compares against 'a' 'z' 'A' 'Z' '0' '9') … -/\ndef validPathAlnum : Bool := %v\n", alnum)
+		fmt.Fprintf(&b, "/-- … and this punctuation (empty: there is no such function) -/\ndef validPathPunct : List UInt8 := %s\n", bytesLit(punct))
 
 		// 8. the transport a forwarded request is sent with (EndpointInfo.ProxyTransport): which time-outs newTransport
 		// (pkg/clusters/endpoint.go) and newRESTConfig (pkg/clusters/util.go) set. A forwarded exchange has a deadline of
